@@ -30,7 +30,7 @@ func cutSweepAll(run *evid.Run, gs []*sessrep.Graph, pathsPer, maxLen int, seria
 			srv := drv.Start(sessrep.DrvCfg(g.Cfg))
 			defer srv.Stop()
 			rng := rand.New(rand.NewSource(run.Seed*104729 + int64(gi)))
-			for i := 0; i < pathsPer; i++ {
+			for i := 0; i < pathsPer && !drv.TooManyHangs(); i++ {
 				path := g.CutPath(rng, 4+rng.Intn(maxLen))
 				if path == nil {
 					continue
